@@ -397,6 +397,12 @@ where
         &mut self,
         diff: &Diff<T>,
     ) -> StdResult<(), Self::Error> {
+        // An empty patch can not be verified against a checkpoint
+        // so refuse it before erasing the current events
+        if diff.patch.is_empty() {
+            return Err(sos_core::Error::NoRootCommit.into());
+        }
+
         // Create a snapshot for disc-based implementations
         let snapshot = self.try_create_snapshot().await?;
 
